@@ -41,7 +41,10 @@ CLAIMED = {
                 'sampling against a 1-2 s dense scan',
         "design_ref": 'DESIGN.md 5/C03',
         "note": 'trusted: Coq kernel, standard reals axioms in two theorems only, the order/sign-preserving IEEE-bits encoding used by the correspondence; scipy brentq'
-                ' / minimize_scalar contracts as Section hypotheses',
+                ' / minimize_scalar contracts as Section hypotheses; additionally translator/gen_passes.py (fail-closed) compares the body of get_next_passes, '
+                'constants masked, with the skeleton the model was written from (translator/passes_skeleton.txt) and extracts its numeric constants on every run; the '
+                "model's pairing loop is proved to take the action of the source's loop body at every crossing and its slice / culmination bracket to use the source's "
+                'constants (C03_source_*)',
         "technique": "Coq proof over a hand-written Gallina model; correspondence by replaying the implementation's own samples and recorded roots via vm_compute; dense-"
                 'scan oracle',
     },
